@@ -46,7 +46,7 @@ def tasks(tier, seed):
         ts.append(dict(name=f'svd_{m}x{n}_tol0', kind='svd', m=m, n=n, qmode='zero', tolmode='zero', cplx=False, cut=6))
     if not q:
         ts.append(dict(name='svd_2x2_cplx', kind='svd', m=2, n=2, qmode='zero', tolmode='sym', cplx=True, cut=6))
-    for k in (1, 2, 3) if q else (1, 2, 3, 4):
+    for k in (1, 2, 3) if q else (1, 2, 3, 4, 5):
         ts.append(dict(name=f'retained_k{k}', kind='retained', k=k, cut=6))
     for distr in ('left', 'right', 'sqrt'):
         ts.append(dict(name=f'split_tol_{distr}', kind='split', distr=distr, d0=2, d1=2, D0=1, D2=1, qmode='zero', cut=6))
